@@ -153,8 +153,8 @@ def run(pid, tier, seed, replay=None):
             if j % 2 == 0:
                 x["mask"] = [10, 15, 17, 2]   # the calling thread has signals blocked
         # two threads launching at the same time, in tight loops (the kernel picks the interleavings)
-        pscs += [{"id": "stress%d" % j, "kind": "stress", "class": "stress", "launches": 60 if tier == "thorough" else 25,
-                  "detached": False} for j in range(3 if tier == "thorough" else 2)]
+        pscs += [{"id": "stress%d" % j, "kind": "stress", "class": "stress", "launches": 120 if tier == "thorough" else 60,
+                  "detached": False} for j in range(8 if tier == "thorough" else 4)]
         presults, pstates, pblocks, pnote = c_api.run_api(pid, tier, seed, pscs, "C18pl")
         pnew, pknown, pothers, _, _ = c_api.classify(pid, pscs, presults, pblocks, "C18_", "api")
         new.extend(pnew)
